@@ -26,7 +26,7 @@ var metas = map[string]PropMeta{
 		Assumptions: []string{"the single transient non-canonical write (stripOAIGenForRef re-pointing parents to the first parent) is followed by pointer naming, as its return value requests"},
 	},
 	"C03": {
-		Explanation: "PIPE-SAVE-NAME, PIPE-WHOWRITES-DEFS, GUARD-UNIQ, GUARD-COMPLEXMOVE, GUARD-COMPLEXDEF, GUARD-REINLINE, GUARD-DOCRULES, PIPE-ORDER/inline, COV-METHODSET.",
+		Explanation: "PIPE-SAVE-NAME, PIPE-WHOWRITES-DEFS, GUARD-UNIQ, GUARD-COMPLEXMOVE, GUARD-COMPLEXDEF, GUARD-REINLINE, GUARD-DOCRULES, COV-KEYGROUPS, PIPE-ORDER/inline, COV-METHODSET.",
 		NotDecided:  []string{"that every position is visited (C11/C12)", "the re-iteration fixpoint after de-duplication re-inlines a complex schema"},
 		Assumptions: []string{"strings.EqualFold is the case-insensitive comparison meant by the statement"},
 	},
@@ -103,6 +103,11 @@ var metas = map[string]PropMeta{
 			"external callees are classified by two tables read from their sources (mutating: spec.ExpandSpec/ExpandSchema, swag.FromDynamicJSON, AddExtension, sort.*; read-only: jsonpointer, jsonreference, fmt, strings, path, strconv, swag name helpers); any other external callee receiving caller-visible pointer-like data makes the obligation undecided",
 			"the caller publishes the *Spec to other goroutines safely after New returns",
 		},
+	},
+	"C05": {
+		Explanation: "PIPE-EXPANDMODE (the expander's SkipSchemas option is `!opts.Expand`, followed from the ExpandOptions literal through the helper's parameter to the call), PIPE-ORDER for the three phases that remove $refs in Expand mode, REF-CANONICAL on every $ref written into the root document. Necessary conditions only.",
+		NotDecided:  []string{"which $refs spec.ExpandSpec leaves (another module; depends on the cycle structure of the bundle)", "no $ref at all on an acyclic bundle", "byte-for-byte reproducibility (see C07)", "meaning preservation (see C01)"},
+		Assumptions: []string{"spec.ExpandSpec expands schema $refs when SkipSchemas is false (read from its source, not analysed)"},
 	},
 	"C14": {
 		Explanation: "Abstract evaluation of analysis.New for the operations index and the required-media/security unions, exhaustiveness over the seven *spec.Operation fields, upper-case discipline of insertion and lookup, and the nil-vs-empty guard shape of the precedence functions.",
